@@ -386,6 +386,17 @@ func VerifC06StepLast() {
 		return
 	}
 	vAssert(*got == a, "last: the looked-up secret of index 0 equals the received one")
+	// the complete store (49 values, BOLT-3's maximum) survives a reload and
+	// still yields the secrets
+	vAssert(st.lenBuckets == maxHeight+1, "last: the complete store holds 49 values")
+	dec := c06RoundTrip(st)
+	if dec == nil {
+		return
+	}
+	got2, err := dec.LookUp(c06Top)
+	vAssert(err == nil && got2 != nil && *got2 == a, "last: the reloaded complete store still yields the secret of index 0")
+	got3, err := dec.LookUp(c06Top - 1)
+	vAssert(err == nil && got3 != nil && *got3 == c06Flip(a, 0), "last: the reloaded complete store still yields the secret of index 1")
 }
 
 // ---------------------------------------------------------------------------
